@@ -101,13 +101,12 @@ def t_kernel(sess, phase, fabric):
         is_zero = all_eq(dA, sarr(np.zeros((3, 3))))
         is_stub = all_eq(dA, stub_out)
         sess.prove(f"{tag}: returned rate is 0 or the spin routine's result", p.pc, z3.Or(is_zero, is_stub))
-        if reach < 2 and tried < 8 and not is_zero_path(dA):
-            tried += 1
-            m, how = kernel.shaped_models(sess, tag, p.pc, inp["q"], inp["L"], timeout_ms=4000)
-            if m is None:
-                continue
-            reach += 1
-            sample(sess, obligation="skew spin", path=tag, decisions="".join("T" if d else "F" for d in p.decisions), dA00=str(dA[0, 0])[:200])
+    wit = kernel.sample_witness(paths, inp, seed=solve.SEED, want=2,
+                                skip=lambda p: p.value is None or is_zero_path(p.value[0]))
+    reach = len(wit)
+    for k, m in wit:
+        sample(sess, obligation="skew spin / definedness", path=f"{fabric}/path{k}", decisions="".join("T" if d else "F" for d in paths[k].decisions),
+               witness_q=[str(m.eval(c.z3(), model_completion=True)) for c in inp["q"]])
     sess.reach.append(solve.QueryResult(f"{fabric}: a non-trivial kernel path has a concrete witness", "sat" if reach else "unknown", None, 0.0))
     sess.notes.append(f"{fabric}: {len(paths)} feasible paths, {n_ob} distinct definedness obligations, {reach} path witnesses")
 
